@@ -158,13 +158,65 @@ pub fn gen_market(r: &mut Rng) -> Market {
     m
 }
 
-pub fn gen_fxrates(r: &mut Rng) -> (FXRates, Market, usize) {
+/// returns (object, model of the latest quotes, final order, successful updates, second_order_descent)
+/// second_order_descent: the matrix now held was computed at second order (it is at order 2, or was
+/// cast down from an order-2 matrix without a rebuild); its values may differ in the last bit from a
+/// first-order build (see DESIGN 9.3, C16)
+pub fn gen_fxrates(r: &mut Rng) -> (FXRates, Market, usize, usize, bool) {
+    let mut hist = 0usize;
+    // (order, descends from a second-order computation) of the matrix currently held
+    let mut st: (usize, bool) = (1, false);
+    let step = |st: &mut (usize, bool), to: usize| {
+        *st = match (st.0, to) {
+            (a, b) if a == b => *st,
+            (_, 2) => (2, true),      // rebuilt (from 0) or raised: computed at second order
+            (0, 1) => (1, false),     // rebuilt at first order
+            (2, b) => (b, true),      // cast down, values kept
+            (1, 0) => (0, st.1),      // cast down, values kept
+            _ => *st,
+        }
+    };
     let m = gen_market(r);
+    let mut m = m;
     let mut fx = m.build().unwrap().unwrap();
     let _ = rateslib::verif::fx_take_trace();
+    // half of the objects have lived a little before being saved: quote updates and order switches
+    if r.chance(0.5) {
+        for _ in 0..1 + r.usize(3) {
+            if r.chance(0.7) {
+                let k = 1 + r.usize(m.quotes.len());
+                let mut ids: Vec<usize> = (0..m.quotes.len()).collect();
+                r.shuffle(&mut ids);
+                ids.truncate(k);
+                let mut ups = vec![];
+                let mut vals = vec![];
+                for i in ids.iter() {
+                    let q = &m.quotes[*i];
+                    let x = hostile_f64(r).abs();
+                    let x = if x.is_finite() && x > 1e-30 && x < 1e30 { x } else { r.uniform(0.5, 2.0) };
+                    let nv = super::fxgen::QuoteVal::F(x);
+                    ups.push(rateslib::fx::rates::FXRate::try_new(&m.ccys[q.lhs], &m.ccys[q.rhs], nv.number(), q.settlement.map(crate::calmodel::to_ndt)).unwrap());
+                    vals.push((*i, nv));
+                }
+                if fx.update(ups).is_ok() {
+                    for (i, nv) in vals {
+                        m.quotes[i].val = nv;
+                    }
+                    hist += 1;
+                    st = (1, false); // an update rebuilds at first order
+                }
+            } else {
+                let o = r.usize(3);
+                let _ = fx.set_ad_order([ADOrder::Zero, ADOrder::One, ADOrder::Two][o]);
+                step(&mut st, o);
+            }
+        }
+        let _ = rateslib::verif::fx_take_trace();
+    }
     let order = r.usize(3);
     let _ = fx.set_ad_order([ADOrder::Zero, ADOrder::One, ADOrder::Two][order]);
-    (fx, m, order)
+    step(&mut st, order);
+    (fx, m, order, hist, st.1)
 }
 
 pub struct CurveObj {
